@@ -46,6 +46,7 @@ fn flush() {
                     j["tape_bytes_offered"] = json!(st.tape_bytes);
                     j["tape_bytes_consumed"] = json!(st.tape_used);
                     j["maxima"]["max-provider-steps-any-solve"] = json!(crate::run::MAX_STEPS_SEEN.load(std::sync::atomic::Ordering::Relaxed));
+                    j["maxima"]["max-solver-loop-iterations-any-solve"] = json!(crate::run::MAX_LOOP_ITERATIONS_SEEN.load(std::sync::atomic::Ordering::Relaxed));
                     let p = out.join(format!("part-{}.json", std::process::id()));
                     let tmp = out.join(format!("part-{}.json.tmp", std::process::id()));
                     if std::fs::write(&tmp, serde_json::to_string(&j).unwrap_or_default()).is_ok() {
